@@ -431,10 +431,10 @@ def classify(ref: bytes, got: bytes, lay: Layout) -> typing.List[str]:
         return causes
     la, lb = ta.splitlines(), tb.splitlines()
     na, nb = [x for x in la if x], [x for x in lb if x]
-    if [bool(x) for x in la] != [bool(x) for x in lb]:
+    if na == nb:  # the non-empty lines agree
+        return causes + (["blank_lines"] if [bool(x) for x in la] != [bool(x) for x in lb] else ["line_terminators"])
+    if len(na) == len(nb) and len(la) != len(lb):
         causes.append("blank_lines")
-    if na == nb:
-        return causes or ["line_terminators"]
     if len(na) == len(nb) and [re.sub(r"\d+", "#", x) for x in na] == [re.sub(r"\d+", "#", x) for x in nb]:
         # same text up to numbers: are the differing lines the ones carrying template-unique names?
         if all(re.search(r"_[A-Za-z]+\d+_", x) for x, y in zip(na, nb) if x != y):
@@ -481,13 +481,16 @@ def check_last(history: typing.List[dict], r: EvResult, refs: dict, lay: Layout,
             "language_context": "reused" if ev["reuse"] else "fresh",
         }
         case = {"history": history}
-        bag.add(
-            sig,
-            case,
-            f"{ev['lang']}/{ev['tpl']} templates, pps={ev['pps']}: {file_kind} file of {what_file} generated after "
-            f"{len(history) - 1} earlier run(s) with types {ev['S']} differs from the fresh-process generation of "
-            f"{'its dependency closure' if file_kind == 'type' else 'the same type set'} ({cause}; attributed to {dim})",
-        )
+        head = f"{ev['lang']}/{ev['tpl']} templates, pps={ev['pps']}, after {len(history) - 1} earlier run(s): "
+        if file_kind == "run":
+            text = head + f"generating {ev['S']} fails ({cause}) although it succeeds in a fresh process"
+        else:
+            text = head + (
+                f"{file_kind} file of {what_file} generated together with {ev['S']} differs from the fresh-process "
+                f"generation of {'its dependency closure' if file_kind == 'type' else 'the same type set'} "
+                f"({cause}; attributed to {dim})"
+            )
+        bag.add(sig, case, text)
 
     if r.error is not None:
         report("run", "-", "exception:" + r.error.split(":")[0], "earlier_runs" if len(history) > 1 else "earlier_files_in_run")
@@ -734,6 +737,7 @@ def _verify_deps(lay: Layout) -> None:
 def run(ctx: Ctx) -> int:
     lay = Layout(ctx.scratch)
     lay.materialize()
+    stamp = permset.tree_stamp()
     in_child(_verify_deps, lay)  # in a fork: the main interpreter must stay pristine (workers are forked from it)
     scratch = str(ctx.scratch)
 
@@ -866,9 +870,12 @@ def run(ctx: Ctx) -> int:
     if deviating == 0 or not sigma_points:
         raise HarnessError("no nested-namespace choice point was explored")
 
+    permset.assert_tree_unchanged(stamp)
     _confirm(ctx, lay)
+    permset.assert_tree_unchanged(stamp)
 
     ctx.stats.update(
+        cpu_seconds=round(sum(os.times()[:4]), 1),
         references=len(need),
         histories_depth1=by_depth[1],
         histories_depth2=by_depth[2],
